@@ -198,6 +198,9 @@ func unmarshalFromData(k *engine.Case, buf []byte, how string) {
 		fail(k, "unmarshal-wrong-set", "%s(%d, %d bytes) returned no error and a nil bitmap", via, start, len(buf))
 		return
 	}
+	for i := range in {
+		in[i] = 0xA5 // the caller reuses its buffer: the block must not live in it
+	}
 	got, ok := readBitmap(bm)
 	if !defined {
 		k.Logf("%s %s len=%d bytes=%s -> accepted as %s, but the bytes denote nothing (%s)", via, how, len(buf), hexs(buf), &got, why)
@@ -257,7 +260,14 @@ func unmarshalDirect(k *engine.Case, buf []byte, how string) {
 		k.Logf("unmarshal %s len=%d %s -> error %q (non-canonical encoding of %s: allowed)", how, len(buf), shortHex(buf), err.Error(), &want)
 		return
 	}
-	// accepted
+	// accepted; the caller's bytes were only input: the caller reuses its buffer now
+	if !bytes.Equal(in, buf) {
+		fail(k, "unmarshal-modified-input", "Unmarshal changed the caller's bytes from %s to %s", hexs(buf), hexs(in))
+		return
+	}
+	for i := range in {
+		in[i] = 0xA5
+	}
 	got, ok := readBitmap(fresh)
 	if !defined {
 		k.Logf("unmarshal %s len=%d bytes=%s -> accepted as %s, but the bytes denote nothing (%s)", how, len(buf), hexs(buf), &got, why)
